@@ -26,7 +26,7 @@ import (
 // Parent mode: for daemon delay {0,50,300 ms} x launcher pause {0,200 ms} (hook VERIF_PAUSE_LAUNCH_AFTERSTART,
 // read by the launcher, inherited through os.Environ()) x {1,4} concurrent Launch calls:
 //
-//	E <delay_ms> <pause_ms> <n> <i> <class> <pid_matches> <marker_at_return> <alive> <reparented> <launcher_gone> <survived> <variant> <hex err>
+//	E <delay_ms> <pause_ms> <n> <i> <class> <pid_matches> <marker_at_return> <alive> <reparented> <launcher_gone> <done_at_return> <right_handler> <survived> <variant> <hex err>
 //	VIOL <scenario> ...      when a Launch violates the property (the same case also has its E line)
 //
 // Daemon handler variants (VERIF_C20_STDERR, set by the caller per scenario): none | before | after | both —
@@ -35,22 +35,30 @@ import (
 // daemon is still running and its late marker exists ("the daemon keeps running after Launch returns", also
 // when it uses its stderr).
 //
+// <done_at_return>: the file the daemon writes immediately BEFORE calling Done() (predone.<pid>) existed when Launch
+// returned — Launch did not return before Done() was entered. <right_handler>: two handler names are registered and
+// used alternately; the returned pid must run the handler that was asked for and be returned by one Launch only.
+// When the launcher pause is set, a successful Launch that took less than the pause means the hook is gone
+// (harness error "hook missing": the forced schedule is not achieved).
+//
 // class: ok | run ("start launcher: …") | stderr | stdout ("launcher stdout: …") | other (timeout).
 // The daemon writes <dir>/marker.<its pid> ("<pid> <unix nanos>") before Done(), so the daemon of a FAILED
-// Launch is found and killed too; every process carrying our VERIF_C20_DIR in its environment is killed at
+// Launch is found and killed too; the daemons of a group (by their markers) and any stuck launcher are killed at
 // the end of each group, whatever happened.
 const (
-	handlerName = "verif-c20"
-	envDir      = "VERIF_C20_DIR"
-	envDelay    = "VERIF_C20_DELAY"
+	handlerA    = "verif-c20-a"
+	handlerB    = "verif-c20-b"
+	envBase     = "VERIF_C20_BASE" // set once, before the first Launch; scenario parameters travel in <base>/current
 	envLife     = "VERIF_C20_LIFE"
 	envPause    = "VERIF_PAUSE_LAUNCH_AFTERSTART"
-	envStderr   = "VERIF_C20_STDERR"
 	lateAfter   = 100 * time.Millisecond // the daemon's late stderr write / late marker, after Done()
 	surviveWait = 300 * time.Millisecond // when the caller looks at the daemon again, after Launch returned
 )
 
-func init() { daemon.Register(handlerName, c20Daemon) }
+func init() {
+	daemon.Register(handlerA, func() { c20Daemon(handlerA) })
+	daemon.Register(handlerB, func() { c20Daemon(handlerB) })
+}
 
 func main() {
 	if daemon.Run() {
@@ -61,21 +69,33 @@ func main() {
 
 // c20Daemon is the registered handler: marker, optional stderr line, optional delay, Done(), optional late
 // stderr line, late marker, live on.
-func c20Daemon() {
-	dir := os.Getenv(envDir)
-	variant := os.Getenv(envStderr)
+func c20Daemon(self string) {
+	// the scenario (directory, delay, stderr variant) is read from <base>/current, not from the environment: the
+	// caller's environment at the time of Launch is not part of the property
+	dir, delayStr, variant := "", "", ""
+	if base := os.Getenv(envBase); base != "" {
+		if b, err := os.ReadFile(filepath.Join(base, "current")); err == nil {
+			f := strings.Split(strings.TrimSpace(string(b)), "\n")
+			if len(f) >= 3 {
+				dir, delayStr, variant = f[0], f[1], f[2]
+			}
+		}
+	}
 	pid := os.Getpid()
 	if dir != "" {
 		tmp := filepath.Join(dir, fmt.Sprintf(".tmp.%d", pid))
-		if err := os.WriteFile(tmp, []byte(fmt.Sprintf("%d %d\n", pid, time.Now().UnixNano())), 0o644); err == nil {
+		if err := os.WriteFile(tmp, []byte(fmt.Sprintf("%d %d %s\n", pid, time.Now().UnixNano(), self)), 0o644); err == nil {
 			os.Rename(tmp, filepath.Join(dir, fmt.Sprintf("marker.%d", pid)))
 		}
 	}
 	if variant == "before" || variant == "both" {
 		fmt.Fprintf(os.Stderr, "c20 daemon %d: starting up\n", pid)
 	}
-	if d, err := time.ParseDuration(os.Getenv(envDelay)); err == nil && d > 0 {
+	if d, err := time.ParseDuration(delayStr); err == nil && d > 0 {
 		time.Sleep(d)
+	}
+	if dir != "" {
+		os.WriteFile(filepath.Join(dir, fmt.Sprintf("predone.%d", pid)), []byte(fmt.Sprintf("%d\n", time.Now().UnixNano())), 0o644)
 	}
 	derr := daemon.Done()
 	if dir != "" {
@@ -138,17 +158,17 @@ func childrenOf(parent int) []int {
 		if err != nil || pid == parent {
 			continue
 		}
-		if st := readStat(pid); st.ok && st.ppid == parent && st.state != 'Z' {
+		if st := readStat(pid); st.ok && st.ppid == parent { // a zombie child is a launcher that was not reaped
 			res = append(res, pid)
 		}
 	}
 	return res
 }
 
-// strays: every process whose initial environment carries our directory (launchers and daemons of this group)
-func strays(dir string) []int {
+// strays: every process whose initial environment carries our base directory (launchers and daemons of this run)
+func strays(base string) []int {
 	var res []int
-	needle := []byte(envDir + "=" + dir + "\x00")
+	needle := []byte(envBase + "=" + base + "\x00")
 	self := os.Getpid()
 	ents, _ := os.ReadDir("/proc")
 	for _, e := range ents {
@@ -162,6 +182,21 @@ func strays(dir string) []int {
 		}
 		if bytes.Contains(append(b, 0), needle) && alive(pid) {
 			res = append(res, pid)
+		}
+	}
+	sort.Ints(res)
+	return res
+}
+
+// groupPids: the daemons that wrote a marker into the group's directory and are running
+func groupPids(dir string) []int {
+	var res []int
+	ents, _ := os.ReadDir(dir)
+	for _, e := range ents {
+		if strings.HasPrefix(e.Name(), "marker.") {
+			if p, err := strconv.Atoi(strings.TrimPrefix(e.Name(), "marker.")); err == nil && alive(p) {
+				res = append(res, p)
+			}
 		}
 	}
 	sort.Ints(res)
@@ -187,17 +222,26 @@ func killAndWait(pids []int) {
 	}
 }
 
-func markerPid(dir string, pid int) (int, bool) {
+func markerInfo(dir string, pid int) (int, string, bool) {
 	b, err := os.ReadFile(filepath.Join(dir, fmt.Sprintf("marker.%d", pid)))
 	if err != nil {
-		return 0, false
+		return 0, "", false
 	}
 	f := strings.Fields(string(b))
 	if len(f) < 1 {
-		return 0, true
+		return 0, "", true
 	}
 	p, _ := strconv.Atoi(f[0])
-	return p, true
+	h := ""
+	if len(f) >= 3 {
+		h = f[2]
+	}
+	return p, h, true
+}
+
+func markerPid(dir string, pid int) (int, bool) {
+	p, _, ok := markerInfo(dir, pid)
+	return p, ok
 }
 
 type launchObs struct {
@@ -210,6 +254,10 @@ type launchObs struct {
 	alive      bool
 	ppid       int
 	reparented bool
+	name       string // handler asked for
+	ranHandler string // handler the returned pid runs (from its marker)
+	rightH     bool
+	doneAtRet  bool
 	survived   bool
 	stateLater string // /proc state when looked at again ("gone" when the process has disappeared)
 	took       time.Duration
@@ -236,7 +284,7 @@ func b01(b bool) string {
 	return "0"
 }
 
-func oneLaunch(dir string) launchObs {
+func oneLaunch(dir, name string, limit time.Duration) launchObs {
 	type res struct {
 		pid int
 		err error
@@ -249,16 +297,17 @@ func oneLaunch(dir string) launchObs {
 				ch <- res{0, fmt.Errorf("panic: %v", r)}
 			}
 		}()
-		pid, err := daemon.Launch(handlerName)
+		pid, err := daemon.Launch(name)
 		ch <- res{pid, err}
 	}()
 	var o launchObs
+	o.name = name
 	select {
 	case r := <-ch:
 		o.pid, o.err = r.pid, r.err
-	case <-time.After(15 * time.Second):
+	case <-time.After(limit):
 		o.timedOut = true
-		o.err = fmt.Errorf("Launch did not return within 15s")
+		o.err = fmt.Errorf("Launch did not return within %v", limit)
 	}
 	o.took = time.Since(t0)
 	o.returned = time.Now()
@@ -269,9 +318,13 @@ func oneLaunch(dir string) launchObs {
 	}
 	o.class = classify(o.err)
 	if o.err == nil && o.pid > 0 {
-		mp, ok := markerPid(dir, o.pid)
+		mp, h, ok := markerInfo(dir, o.pid)
 		o.marker = ok
 		o.pidMatches = ok && mp == o.pid
+		o.ranHandler = h
+		o.rightH = ok && h == name
+		_, perr := os.Stat(filepath.Join(dir, fmt.Sprintf("predone.%d", o.pid)))
+		o.doneAtRet = perr == nil
 		st := readStat(o.pid)
 		o.alive = st.ok && st.state != 'Z' && st.state != 'X'
 		o.ppid = st.ppid
@@ -323,17 +376,17 @@ func runC20(e *hk.Env) error {
 		} else {
 			os.Unsetenv(envPause)
 		}
-		os.Unsetenv(envDir)
-		os.Unsetenv(envDelay)
+		os.Unsetenv(envBase)
 		os.Unsetenv(envLife)
-		os.Unsetenv(envStderr)
 	}()
 
 	delays := []int{0, 50, 300}
 	pauses := []int{0, 200}
 	conc := []int{1, 4}
 	rounds := 1
+	stress := 4
 	if e.Thorough() {
+		stress = 20
 		delays = []int{0, 5, 20, 50, 100, 300}
 		pauses = []int{0, 50, 200, 500}
 		conc = []int{1, 4, 8}
@@ -349,8 +402,10 @@ func runC20(e *hk.Env) error {
 		}
 	}
 	os.Setenv(envLife, "20s")
+	os.Setenv(envBase, base)
 	self := os.Getpid()
-	cases, viols, groups, leakedTotal, notSurvived := 0, 0, 0, 0, 0
+	cases, viols, groups, leakedTotal, notSurvived, hookMissing, timeouts := 0, 0, 0, 0, 0, 0, 0
+	hookDetail := ""
 	classHist := map[string]int{}
 	ppidHist := map[string]int{}
 	variantHist := map[string]int{}
@@ -366,6 +421,20 @@ func runC20(e *hk.Env) error {
 			for _, n := range conc {
 				scenarios = append(scenarios, scenario{delay, pause, n, "none"})
 			}
+		}
+	}
+	if e.Replay == "" {
+		// slow daemons: a launcher that stops waiting after a grace period returns before Done(). Quick reaches 1 s,
+		// thorough 4.5 s; a grace timer longer than the longest delay tested is only caught by the extracted action list.
+		for _, n := range conc[:min(2, len(conc))] {
+			scenarios = append(scenarios, scenario{1000, 0, n, "none"})
+			if e.Thorough() {
+				scenarios = append(scenarios, scenario{4500, 0, n, "none"})
+			}
+		}
+		// many overlapping launches under two names: state shared between Launch calls shows as a wrong handler
+		for k := 0; k < stress; k++ {
+			scenarios = append(scenarios, scenario{0, 0, 8, "none"})
 		}
 	}
 	// the stderr variants on the two extreme timings (thorough: on every timing)
@@ -444,14 +513,16 @@ func runC20(e *hk.Env) error {
 				errText = o.err.Error()
 			}
 			e.Case("E", strconv.Itoa(g.sc.delay), strconv.Itoa(g.sc.pause), strconv.Itoa(g.sc.n), strconv.Itoa(i), o.class,
-				b01(o.pidMatches), b01(o.marker), b01(o.alive), b01(o.reparented), b01(g.gone), b01(o.survived), g.sc.variant, hk.Hxs(errText))
-			good := o.err == nil && o.pidMatches && o.marker && o.alive && o.reparented && g.gone && o.survived
+				b01(o.pidMatches), b01(o.marker), b01(o.alive), b01(o.reparented), b01(g.gone), b01(o.doneAtRet), b01(o.rightH),
+				b01(o.survived), g.sc.variant, hk.Hxs(errText))
+			good := o.err == nil && o.pidMatches && o.marker && o.alive && o.reparented && g.gone && o.doneAtRet && o.rightH && o.survived
 			if !good {
 				viols++
 				e.Case("VIOL", fmt.Sprintf("delay=%dms", g.sc.delay), fmt.Sprintf("pause=%dms", g.sc.pause), fmt.Sprintf("n=%d", g.sc.n),
 					"daemon_stderr="+g.sc.variant, fmt.Sprintf("i=%d", i), fmt.Sprintf("err=%q", errText), fmt.Sprintf("pid=%d", o.pid),
 					"pid_matches="+b01(o.pidMatches), "marker_at_return="+b01(o.marker), "alive_at_return="+b01(o.alive),
-					fmt.Sprintf("ppid=%d", o.ppid), "launcher_gone="+b01(g.gone),
+					fmt.Sprintf("ppid=%d", o.ppid), "launcher_gone="+b01(g.gone), "done_entered_at_return="+b01(o.doneAtRet),
+					"asked="+o.name, "runs="+o.ranHandler, "right_handler_and_distinct_pid="+b01(o.rightH),
 					fmt.Sprintf("survived_%dms_after_return=%s", surviveWait.Milliseconds(), b01(o.survived)), "state_later="+o.stateLater,
 					fmt.Sprintf("daemons_running_unclaimed=%v", g.leaked))
 			}
@@ -462,16 +533,18 @@ func runC20(e *hk.Env) error {
 			}
 		}
 		// always clean up: claimed daemons, leaked daemons, stuck launchers
-		killAndWait(strays(g.dir))
-		if left := strays(g.dir); len(left) > 0 {
+		// (between groups no launcher is legitimately running: whatever child is left is stuck)
+		killAndWait(append(groupPids(g.dir), childrenOf(self)...))
+		if left := groupPids(g.dir); len(left) > 0 {
 			e.Count("cleanup_left_running", len(left))
 		}
 	}
 	var pend []*group
 	defer func() {
 		// whatever happens (panic included): nothing of ours stays behind
-		for _, g := range pend {
-			killAndWait(strays(g.dir))
+		killAndWait(append(strays(base), childrenOf(self)...))
+		if left := strays(base); len(left) > 0 {
+			e.Count("cleanup_left_running", len(left))
 		}
 	}()
 	drain := func(all bool) {
@@ -486,9 +559,9 @@ func runC20(e *hk.Env) error {
 			groups++
 			g := &group{sc: sc, round: round, dir: filepath.Join(base, fmt.Sprintf("g%d", groups))}
 			os.MkdirAll(g.dir, 0o755)
-			os.Setenv(envDir, g.dir)
-			os.Setenv(envDelay, fmt.Sprintf("%dms", sc.delay))
-			os.Setenv(envStderr, sc.variant)
+			tmp := filepath.Join(base, ".current.tmp")
+			os.WriteFile(tmp, []byte(fmt.Sprintf("%s\n%dms\n%s\n", g.dir, sc.delay, sc.variant)), 0o644)
+			os.Rename(tmp, filepath.Join(base, "current"))
 			if sc.pause > 0 {
 				os.Setenv(envPause, fmt.Sprintf("%dms", sc.pause))
 			} else {
@@ -500,12 +573,37 @@ func runC20(e *hk.Env) error {
 				wg.Add(1)
 				go func(i int) {
 					defer wg.Done()
-					g.obs[i] = oneLaunch(g.dir)
+					name := handlerA
+					if (i+groups)%2 == 1 {
+						name = handlerB
+					}
+					g.obs[i] = oneLaunch(g.dir, name, time.Duration(sc.delay+sc.pause)*time.Millisecond+3*time.Second)
 				}(i)
 			}
 			wg.Wait()
 			g.returned = time.Now()
 			pend = append(pend, g)
+			// each Launch has its own daemon
+			seenPid := map[int]int{}
+			for _, o := range g.obs {
+				if o.err == nil {
+					seenPid[o.pid]++
+				}
+			}
+			for i := range g.obs {
+				o := &g.obs[i]
+				if o.err == nil && seenPid[o.pid] > 1 {
+					o.rightH = false
+				}
+				if o.timedOut {
+					timeouts++
+				}
+				// the forced schedule needs the hook: a successful Launch cannot be faster than the launcher's pause
+				if sc.pause > 0 && o.err == nil && o.took < time.Duration(sc.pause)*time.Millisecond {
+					hookMissing++
+					hookDetail = fmt.Sprintf("%s=%dms but Launch returned after %dms", envPause, sc.pause, o.took.Milliseconds())
+				}
+			}
 			// the launchers are gone: this process has no child left (daemons of earlier groups are not our children)
 			g.gone = len(childrenOf(self)) == 0
 			// daemons that are running: claimed by a successful Launch, or leaked by a failed one
@@ -522,7 +620,7 @@ func runC20(e *hk.Env) error {
 				// a failed Launch's daemon may still be on its way to the marker: give it a moment before counting
 				time.Sleep(time.Duration(sc.delay+150) * time.Millisecond)
 				leakedMarkers := 0
-				for _, p := range strays(g.dir) {
+				for _, p := range groupPids(g.dir) {
 					if !claimed[p] && readStat(p).ppid != self {
 						g.leaked = append(g.leaked, p)
 						if mp, ok := markerPid(g.dir, p); ok && mp == p {
@@ -541,10 +639,16 @@ func runC20(e *hk.Env) error {
 				}
 			}
 			drain(false)
+			if timeouts >= 3 {
+				e.Stats["aborted"] = fmt.Sprintf("after %d Launch calls that did not return (scenario %d of %d)", timeouts, groups, len(scenarios)*rounds)
+				break
+			}
+		}
+		if timeouts >= 3 {
+			break
 		}
 	}
 	drain(true)
-	os.Unsetenv(envStderr)
 	e.Stats["cases"] = cases
 	e.Stats["groups"] = groups
 	e.Stats["harness_violations"] = viols
@@ -558,6 +662,11 @@ func runC20(e *hk.Env) error {
 	e.Stats["pauses_ms"] = pauses
 	e.Stats["concurrency"] = conc
 	e.Stats["rounds"] = rounds
-	e.Stats["distinct_nontrivial"] = len(scenarios)
+	e.Stats["distinct_nontrivial"] = len(scenarios) - max(0, stress-1)
+	e.Stats["launch_timeouts"] = timeouts
+	e.Stats["hook_missing"] = hookMissing
+	if hookMissing > 0 {
+		return fmt.Errorf("hook missing: forced schedule not achieved (%s, %d launches): the verifPause(\"launch.afterStart\") call right after cmd.Start() in daemon.launch is gone or no longer pauses", hookDetail, hookMissing)
+	}
 	return nil
 }
